@@ -77,6 +77,34 @@ def _eval_sp(item):
                 f"state point {job.statepoint()!r}", sp, repr(job.statepoint()))
         if canon.snapshot(d) != before:
             bad("open-job-writes", "accessing id/statepoint of an unopened job wrote to disk")
+        # other spellings of the caller's mapping must not be aliased either: tuples holding mutable items, and
+        # values that are live synced collections of another (uninitialised) job
+        if any(isinstance(v, (list, dict)) for v in sp.values()):
+            caller2 = {k: (tuple(copy.deepcopy(v)) if isinstance(v, list) else copy.deepcopy(v)) for k, v in sp.items()}
+            job2 = p.open_job(caller2)
+            for v in caller2.values():
+                for x in (v if isinstance(v, tuple) else [v]):
+                    _mutate_all(x)
+            if job2.id != want_id or not canon.typed_eq(canon.plain(job2.statepoint()), sp):
+                bad("handle-aliases-caller-mapping", f"tuple spelling: after mutating items inside the caller's tuples the handle "
+                    f"reports id {job2.id}, state point {job2.statepoint()!r}", sp, repr(job2.statepoint()), spelling="tuple")
+            other = p.open_job(copy.deepcopy(sp))
+            live = other.statepoint
+            caller3 = {k: live[k] for k in sp}
+            job3 = p.open_job(caller3)
+            for k, v in sp.items():
+                try:
+                    if isinstance(v, list):
+                        live[k].append("changed")
+                    elif isinstance(v, dict):
+                        live[k]["__mutated__"] = 1
+                except Exception:
+                    pass
+            if job3.id != want_id or not canon.typed_eq(canon.plain(job3.statepoint()), sp):
+                bad("handle-aliases-caller-mapping", f"synced-collection spelling: after the other job's state point changed the "
+                    f"handle reports id {job3.id}, state point {job3.statepoint()!r}", sp, repr(job3.statepoint()), spelling="synced")
+            if canon.snapshot(d) != before:
+                bad("open-job-writes", "opening jobs from tuple / synced spellings wrote to disk")
         job.init()
         after = canon.snapshot(d)
         created = sorted(k for k in after if k not in before)
